@@ -65,6 +65,11 @@ def configs(tier, seed, prefix="index"):
             for h in (0, 1, 2, 3, 4):
                 for m in ((1, 2, 3) if algo != "VHCT" else (1, 2)):
                     out.append({"name": "kernel-%s-h%d-m%d" % (algo, h, m), "mode": "kernel", "algo": algo, "h": h, "m": m, "part": "B", "d": 1, "T": 0, "cost": 50 if algo == "VHCT" else 5})
+    # variance first grows then shrinks on every cell (per-point rewards 1,0,1,0,0.5,0.5,...): VHCT thresholds move both ways
+    for (cc, P) in ((0.35, 17), (0.35, 20), (0.5, 47), (0.2252, 60)) + (((0.1, 150), (0.2252, 230)) if q else ()):
+        pre = {"P": P, "k": 3, "seed": 0, "pattern": "spread_flat"}
+        out.append({"name": "%s-VHCT-B-d1-P%d+3-spreadflat-c%s" % (prefix, P, cc), "algo": "VHCT", "part": "B", "d": 1, "T": P + 3,
+                    "params": {"c": cc}, "prefix": pre, "cost": P * 5})
     out.append({"name": "twin-" + prefix, "algo": "HCT", "part": "B", "d": 1, "T": 3, "params": {}, "twin": True, "expect_fail": "twin"})
     return out
 
